@@ -41,6 +41,7 @@ type GroupRouter struct {
 	cancel context.CancelFunc
 
 	mu     sync.RWMutex
+	rev    int64             // etcd revision the routing table reflects (guarded by mu)
 	routes map[string]string // groupID -> brokerID
 }
 
@@ -117,6 +118,7 @@ func (r *GroupRouter) loadAll(ctx context.Context) error {
 	}
 	r.mu.Lock()
 	r.routes = fresh
+	r.rev = resp.Header.Revision
 	r.mu.Unlock()
 	r.logger.Info("loaded group routes from etcd", "count", len(fresh))
 	return nil
@@ -124,13 +126,21 @@ func (r *GroupRouter) loadAll(ctx context.Context) error {
 
 func (r *GroupRouter) watch(ctx context.Context) {
 	for {
-		watchChan := r.client.Watch(ctx, groupLeasePrefix+"/", clientv3.WithPrefix(), clientv3.WithPrevKV())
+		// Resume right after the revision the table reflects, so that no lease
+		// change between the load and the start of the watch is missed.
+		r.mu.RLock()
+		rev := r.rev
+		r.mu.RUnlock()
+		watchChan := r.client.Watch(ctx, groupLeasePrefix+"/", clientv3.WithPrefix(), clientv3.WithPrevKV(), clientv3.WithRev(rev+1))
 		for resp := range watchChan {
 			if resp.Err() != nil {
 				r.logger.Warn("group lease watch error", "error", resp.Err())
 				continue
 			}
 			r.mu.Lock()
+			if resp.Header.Revision > r.rev {
+				r.rev = resp.Header.Revision
+			}
 			for _, ev := range resp.Events {
 				etcdKey := string(ev.Kv.Key)
 				groupID, ok := groupLeaseKeyToGroupID(etcdKey)
